@@ -132,6 +132,13 @@ let eval (op : string) (a : string list) : string =
         | _, ["F"; e] -> SubErr (zp e)
         | _ -> failwith "bad outcome") subs outs in
     let qs = "Q" ^ freq "@" q in
+    (* the Transport's split round trip (join / await) with send = the outcome of each
+       message: must be Merge over the aligned results whenever the outcomes are a function
+       of the message (the same question asked twice got the same outcome) *)
+    let table = List.combine subs results in
+    let functional = List.for_all (fun (s1, r1) -> List.for_all (fun (s2, r2) -> s1 <> s2 || r1 = r2) table) table in
+    let send m = (try List.assoc m table with Not_found -> SubErr Z0) in
+    if functional && split_round_trip send q <> listoffsets_merge subs results then qs ^ " SPECDIFF" else
     (match listoffsets_merge subs results with
      | MergePanic -> qs ^ " PANIC"
      | MergeErr e -> qs ^ " E" ^ zs e
